@@ -140,8 +140,8 @@ theorem C18_sound (cfg : Config) (ifs : List Iface) (hq : cfg.quirks = []) (hwf 
               simp [candViolation, unitCand, GUnit.sockBase, hmd', hT, hne, hex, hk, hmux, hnm, ofTransport_is6]
             · simp [candViolation, unitCand, GUnit.sockBase, hma, hce, hmd', hT, hne, hex, hk, hmux, hnm, ofTransport_is6]
       · -- interface table: the socket is on `bind`, the candidate publishes `mapped`
-        obtain ⟨kind, net, bind, url, n, mapped⟩ := u
-        obtain ⟨a, ifc, mp, hmem, hmp, hb, hmpd, _, _, hsup, h⟩ := (mem_hostIfaceUnits hq).1 hu
+        obtain ⟨kind, net, bind, url, n, mapped, uifc⟩ := u
+        obtain ⟨a, ifc, mp, hmem, hmp, hb, hmpd, _, _, _, hsup, h⟩ := (mem_hostIfaceUnits hq).1 hu
         simp only at hb hmpd h
         subst hb hmpd
         have hl := local_of_mem hmem
@@ -277,7 +277,7 @@ theorem C18_sound (cfg : Config) (ifs : List Iface) (hq : cfg.quirks = []) (hwf 
     · rename_i hty
       have hT := typesEnabled_of_mem hty
       obtain ⟨hk, hn, hb⟩ := mem_relayUnits hu
-      obtain ⟨kind, net, bind, url, n, mp⟩ := u
+      obtain ⟨kind, net, bind, url, n, mp, uifc⟩ := u
       simp only at hk hn hb
       subst hk hn
       have hq3 : cfg.has 3 = false := by simp [Config.has, hq]
@@ -289,9 +289,9 @@ theorem C18_sound (cfg : Config) (ifs : List Iface) (hq : cfg.quirks = []) (hwf 
         · simp at h
         · exact h
       have hbase := baseOk_of (v6 := false) hb
-      have haddr : excludedClass (unitCand cfg ⟨.relay, .udp4, bind, url, n, mp⟩ ci m).addr.cls = false
-          ∧ ((unitCand cfg ⟨.relay, .udp4, bind, url, n, mp⟩ ci m).addr.cls == AddrClass.nm) = false
-          ∧ (unitCand cfg ⟨.relay, .udp4, bind, url, n, mp⟩ ci m).addr.cls.isLinkLocal6 = false := by
+      have haddr : excludedClass (unitCand cfg ⟨.relay, .udp4, bind, url, n, mp, uifc⟩ ci m).addr.cls = false
+          ∧ ((unitCand cfg ⟨.relay, .udp4, bind, url, n, mp, uifc⟩ ci m).addr.cls == AddrClass.nm) = false
+          ∧ (unitCand cfg ⟨.relay, .udp4, bind, url, n, mp, uifc⟩ ci m).addr.cls.isLinkLocal6 = false := by
         simp only [unitCand]
         rcases relayAddr_cases cfg m ci with h | h <;> rw [h] <;> simp [excludedClass, AddrClass.isLinkLocal6]
       obtain ⟨hex, hnm, hk⟩ := haddr
@@ -300,29 +300,66 @@ theorem C18_sound (cfg : Config) (ifs : List Iface) (hq : cfg.quirks = []) (hwf 
     · simp at hu
 
 open IceProofs.GatherAgent IceProofs.GatherProv in
-/-- **Soundness of every observation of the model.** For every configuration, interface table,
-operation sequence on a fresh agent and every further operation: every candidate the model lists in
-`GetLocalCandidates` or delivers to `OnCandidate` passes the spec's `candViolation` — i.e. every trace
-the model can produce passes the soundness part of the monitor that is also run on the implementation. -/
-theorem C18_sound_reachable (cfg : Config) (ifs : List Iface) (hq : cfg.quirks = []) (hwf : realAddrs cfg ifs = true)
-    (s0 : MState) (h0 : newAgent cfg ifs = .ok s0) (ops : List Op) (op : Op) :
-    ∀ c ∈ (observe (step (runOps s0 ops) op).1).cands ++ (observe (step (runOps s0 ops) op).1).evs,
-      candViolation cfg ifs c.1 = none := by
-  have hp : Prov cfg ifs (step (runOps s0 ops) op).1 := step_prov (runOps_prov ops (prov_init cfg ifs s0 h0)) op
-  have sound : ∀ d, FromUnit cfg ifs d → d.hidden = false → candViolation cfg ifs d = none := by
-    rintro d ⟨u, hu, ci, m, rfl, hpub⟩ hh
-    exact C18_sound cfg ifs hq hwf u hu ci m hpub hh
-  intro c hc
-  simp only [observe, List.mem_append] at hc
-  rcases hc with hc | hc
-  · split at hc
-    · simp at hc
-    · simp only [List.mem_map, List.mem_filter] at hc
-      obtain ⟨mc, ⟨hmc, hnh⟩, rfl⟩ := hc
-      exact sound mc.d (hp.cands mc hmc) (by simpa using hnh)
-  · simp only [List.mem_map] at hc
+/-- **Soundness of every observation of the model, with an interface table that changes.** For every
+configuration (repaired code), initial interface table, operation sequence on a fresh agent — including any number of
+`ifaces` operations that replace the table, ticks of the monitor of continual gathering and its re-gather passes —
+and every further operation: every candidate the model lists in `GetLocalCandidates` passes the spec's
+`candViolation` for a table the fake Net has had (the initial one or the one of an `ifaces` operation: the table at
+the time of the pass that gathered it), so does every candidate it delivers to `OnCandidate`, and a HOST candidate
+delivered to `OnCandidate` passes it for the table IN FORCE during that operation — i.e. every trace the model can
+produce passes the soundness part of the monitor (`IceSpec.C18.soundViolation`) that is also run on the
+implementation. With no `ifaces` operation this is the old statement: one table, every candidate judged against it. -/
+theorem C18_sound_reachable (cfg : Config) (ifs : List Iface) (hq : cfg.quirks = [])
+    (s0 : MState) (h0 : newAgent cfg ifs = .ok s0) (ops : List Op) (op : Op)
+    (hwf : ∀ T ∈ ifs :: opTables (ops ++ [op]), realAddrs cfg T = true) :
+    let s := (step (runOps s0 ops) op).1
+    (∀ T ∈ s.ifs :: s.ifsHist, T ∈ ifs :: opTables (ops ++ [op]))
+    ∧ (∀ c ∈ (observe s).cands ++ (observe s).evs, ∃ T ∈ s.ifs :: s.ifsHist, candViolation cfg T c.1 = none)
+    ∧ (∀ c ∈ (observe s).evs, c.1.ty = .host → candViolation cfg s.ifs c.1 = none) := by
+  intro s
+  have hi : ProvS cfg s0 := prov_init cfg ifs s0 h0
+  have hp : ProvS cfg s := step_prov (runOps_prov ops hi) op
+  -- the tables the run has had
+  have htab : ∀ T ∈ s.ifs :: s.ifsHist, T ∈ ifs :: opTables (ops ++ [op]) := by
+    intro T hT
+    have h1 : T ∈ (runOps s0 (ops ++ [op])).ifs :: (runOps s0 (ops ++ [op])).ifsHist := by
+      have : runOps s0 (ops ++ [op]) = s.flush := runOps_snoc s0 ops op
+      rw [this]; exact hT
+    have h2 := runOps_tabs (ops ++ [op]) hi T h1
+    have hs0 : s0.ifs :: s0.ifsHist = [ifs] := by rw [newAgent_ok h0]
+    rw [hs0] at h2
+    rcases h2 with h2 | h2
+    · simp only [List.mem_singleton] at h2; subst h2; simp
+    · exact List.mem_cons_of_mem _ h2
+  have sound : ∀ T ∈ s.ifs :: s.ifsHist, ∀ d, FromUnit cfg T d → d.hidden = false → candViolation cfg T d = none := by
+    rintro T hT d ⟨u, hu, ci, m, rfl, hpub⟩ hh
+    exact C18_sound cfg T hq (hwf T (htab T hT)) u hu ci m hpub hh
+  refine ⟨htab, ?_, ?_⟩
+  · intro c hc
+    simp only [observe, List.mem_append] at hc
+    rcases hc with hc | hc
+    · split at hc
+      · simp at hc
+      · simp only [List.mem_map, List.mem_filter] at hc
+        obtain ⟨mc, ⟨hmc, hnh⟩, rfl⟩ := hc
+        obtain ⟨T, hT, hf⟩ := hp.cands mc hmc
+        exact ⟨T, hT, sound T hT mc.d hf (by simpa using hnh)⟩
+    · simp only [List.mem_map] at hc
+      obtain ⟨e, he, rfl⟩ := hc
+      obtain ⟨⟨T, hT, hf⟩, _, hh⟩ := hp.evs e he
+      exact ⟨T, hT, sound T hT e.1 hf hh⟩
+  · intro c hc hty
+    simp only [observe, List.mem_map] at hc
     obtain ⟨e, he, rfl⟩ := hc
-    exact sound e.1 (hp.evs e he).1 (hp.evs e he).2
+    obtain ⟨_, hcur, hh⟩ := hp.evs e he
+    exact sound s.ifs (by simp) e.1 (hcur hty) hh
+where
+  runOps_snoc (s0 : MState) : ∀ (ops : List Op) (op : Op),
+      IceProofs.GatherAgent.runOps s0 (ops ++ [op]) = (step (IceProofs.GatherAgent.runOps s0 ops) op).1.flush := by
+    intro ops
+    induction ops generalizing s0 with
+    | nil => intro op; rfl
+    | cons o ops ih => intro op; simp only [List.cons_append, IceProofs.GatherAgent.runOps]; exact ih _ op
 
 /-! ### C18_complete -/
 
@@ -553,16 +590,16 @@ theorem C18_complete (cfg : Config) (ifs : List Iface) (hq : cfg.quirks = [])
   have hsup := not_excluded_supported hexe
   constructor
   · intro hmux hen hena
-    refine ⟨{ kind := .hostUdp, net := NetType.ofTransport false e.cls.is6, bind := a, mapped := e }, ?_, rfl, rfl, rfl, rfl, rfl⟩
+    refine ⟨{ kind := .hostUdp, net := NetType.ofTransport false e.cls.is6, bind := a, mapped := e, ifc := ifc }, ?_, rfl, rfl, rfl, rfl, rfl⟩
     simp only [allUnits, hh, ↓reduceIte, List.mem_append]
     refine Or.inl (Or.inl (Or.inr ?_))
-    exact (mem_hostIfaceUnits hq).2 ⟨a, ifc, e, eligible_local he hifc hena, hm, rfl, rfl, rfl, rfl, hsup,
+    exact (mem_hostIfaceUnits hq).2 ⟨a, ifc, e, eligible_local he hifc hena, hm, rfl, rfl, rfl, rfl, rfl, hsup,
       Or.inr ⟨rfl, rfl, (requested_of_enabled hen).2, hmux⟩⟩
   · intro hmux hen hena
-    refine ⟨{ kind := .hostTcp, net := NetType.ofTransport true e.cls.is6, bind := a, mapped := e }, ?_, rfl, rfl, rfl, rfl, rfl⟩
+    refine ⟨{ kind := .hostTcp, net := NetType.ofTransport true e.cls.is6, bind := a, mapped := e, ifc := ifc }, ?_, rfl, rfl, rfl, rfl, rfl⟩
     simp only [allUnits, hh, ↓reduceIte, List.mem_append]
     refine Or.inl (Or.inl (Or.inr ?_))
-    exact (mem_hostIfaceUnits hq).2 ⟨a, ifc, e, eligible_local he hifc hena, hm, rfl, rfl, rfl, rfl, hsup,
+    exact (mem_hostIfaceUnits hq).2 ⟨a, ifc, e, eligible_local he hifc hena, hm, rfl, rfl, rfl, rfl, rfl, hsup,
       Or.inl ⟨rfl, rfl, (requested_of_enabled hen).2, hmux⟩⟩
 
 open IceProofs.GatherComplete in
@@ -589,11 +626,11 @@ theorem C18_complete_gather (s : MState) (hq : s.cfg.quirks = []) (hh : s.cfg.ca
   rw [hstep]
   refine ⟨rfl, ?_⟩
   simp only [finishCycle_cands]
-  have hu : ({ kind := .hostUdp, net := NetType.ofTransport false e.cls.is6, bind := a, mapped := e } : GUnit)
+  have hu : ({ kind := .hostUdp, net := NetType.ofTransport false e.cls.is6, bind := a, mapped := e, ifc := ifc } : GUnit)
       ∈ hostIfaceUnits s1.cfg s1.ifs := by
     rw [hc, hi]
     exact (mem_hostIfaceUnits hq).2 ⟨a, ifc, e, eligible_local he hifc hena, hostMapped_of_publishedAs he hpub,
-      rfl, rfl, rfl, rfl, not_excluded_supported hexe, Or.inr ⟨rfl, rfl, (requested_of_enabled hen).2, hmux⟩⟩
+      rfl, rfl, rfl, rfl, rfl, not_excluded_supported hexe, Or.inr ⟨rfl, rfl, (requested_of_enabled hen).2, hmux⟩⟩
   obtain ⟨mc, hmc, hd⟩ := runCycleUnits_hostUdp s1 s.cyc.cycles.length s.cyc.gen (by rw [hc]; exact hh)
     (by rw [hc]; exact hmux) (by rw [hc]; exact hpr) hl _ hu rfl
   refine ⟨mc, hmc, ?_⟩
@@ -621,9 +658,10 @@ theorem C18_complete_mux (cfg : Config) (ifs : List Iface) (hq : cfg.quirks = []
 open IceModel.Gather.Cycle IceProofs.GatherCyc in
 /-- the cycle clauses that do not depend on the check/hand-off window, for ALL event sequences (every
 interleaving of GatherCandidates / Restart / Close calls with the tasks and context checks of every
-cycle's goroutine), for the code with (`r = true`) or without (`r = false`) the re-check -/
-theorem cycle_core (r : Bool) (evs : List Cycle.Ev) :
-    let res := Cycle.run r {} evs
+cycle's goroutine, and with the ticks and re-gather passes of the monitor of continual gathering), for the code
+with (`r = true`) or without (`r = false`) the re-check, for either gathering policy (`k` = continual) -/
+theorem cycle_core (r k : Bool) (evs : List Cycle.Ev) :
+    let res := Cycle.run r { continual := k } evs
     -- cycles never overlap: at most one cycle is not cancelled …
     (∀ (i j : Nat) (ci cj : Cyc), res.1.cycles[i]? = some ci → res.1.cycles[j]? = some cj →
         ci.cancelled = false → cj.cancelled = false → i = j)
@@ -641,17 +679,35 @@ theorem cycle_core (r : Bool) (evs : List Cycle.Ev) :
           ∧ (Cycle.step r s' .gather).2 = [Out.accepted s'.cycles.length s'.gen])
     -- New → Gathering → Complete: within a generation the state never moves backwards
     ∧ (∀ e, e ≠ Cycle.Ev.restart → rank res.1.gs ≤ rank (Cycle.step r res.1 e).1.gs
-        ∧ (Cycle.step r res.1 e).1.gen = res.1.gen) := by
+        ∧ (Cycle.step r res.1 e).1.gen = res.1.gen)
+    -- CONTINUAL GATHERING: the cycle never completes and no nil candidate is ever delivered
+    ∧ (k = true → res.1.gs ≠ GS.complete ∧ ∀ g, nilCount res.2 g = 0)
+    -- a re-gather pass of the monitor is only ever begun by a tick of the ONE live cycle, which belongs to the current
+    -- generation, while the agent is open and the state is Gathering; it changes nothing in the cycle state
+    ∧ (∀ e c g, Out.regather c g ∈ (Cycle.step r res.1 e).2 →
+        e = .tick c ∧ k = true ∧ res.1.closed = false ∧ g = res.1.gen ∧ res.1.gs = GS.gathering
+          ∧ (Cycle.step r res.1 e).1 = res.1 ∧ ∃ cy, res.1.cycles[c]? = some cy ∧ cy.cancelled = false ∧ cy.gen = g)
+    -- Restart cancels the monitor with the cycle: whatever tick follows, no re-gather pass begins
+    ∧ (res.1.closed = false → ∀ c, (Cycle.step r (Cycle.step r res.1 .restart).1 (.tick c)).2 = []) := by
   intro res
-  have hn : NInv res.1 ([] ++ res.2) := ninv_run r evs ninv_init
+  have hn : NInv res.1 ([] ++ res.2) := ninv_run r evs (ninv_init' k)
   have hi := hn.inv
+  have hk : res.1.continual = k := run_continual r evs _
+  have hnil := fun (h : k = true) => run_no_nil_continual r evs (s := { continual := k }) h (by simp)
   refine ⟨fun i j ci cj h1 h2 l1 l2 => hi.unique h1 h2 l1 l2, fun i c h l => hi.live i c h l,
-    fun g => by simpa using hn.once g, fun hc hg => gather_refused r _ hc hg, ?_, fun e he => gs_forward r hi e he⟩
-  intro hc
-  have hr := restart_effect r res.1 hc
-  refine ⟨hr.1, hr.2.1, hr.2.2, ?_⟩
-  have hc' : (Cycle.step r res.1 .restart).1.closed = false := by simp [Cycle.step, hc]
-  rw [gather_accepted r _ hc' hr.1]
+    fun g => by simpa using hn.once g, fun hc hg => gather_refused r _ hc hg, ?_, fun e he => gs_forward r hi e he,
+    fun h => ⟨(hnil h).2, (hnil h).1⟩, ?_, ?_⟩
+  · intro hc
+    have hr := restart_effect r res.1 hc
+    refine ⟨hr.1, hr.2.1, hr.2.2, ?_⟩
+    have hc' : (Cycle.step r res.1 .restart).1.closed = false := by simp [Cycle.step, hc]
+    rw [gather_accepted r _ hc' hr.1]
+  · intro e c g ho
+    obtain ⟨he, hcl, hg, hgs, hcont, hsame, cy, hcy, hlive, _, hgen⟩ :=
+      regather_live r hi (fun h => (hnil (hk ▸ h)).2) e c g ho
+    exact ⟨he, hk ▸ hcont, hcl, hg, hgs, hsame, cy, hcy, hlive, hgen⟩
+  · intro hc c
+    exact tick_after_cancel r _ (restart_effect r res.1 hc).2.2 c
 
 open IceModel.Gather.Cycle IceProofs.GatherCyc in
 /-- **C18_cycle for the code as it stands (partial).** All cycle clauses hold for every interleaving;
@@ -699,7 +755,7 @@ theorem C18_cycle_agent (cfg : Config) (ifs : List Iface) (s0 : MState) (h0 : ne
         ∧ (IceModel.Gather.step s .restart).1.cyc.gen = s.cyc.gen + 1) := by
   intro s
   obtain ⟨evs, hevs⟩ := runOps_reach ops (init_reach cfg ifs s0 h0)
-  have hc := cycle_core false evs
+  have hc := cycle_core false cfg.continual evs
   simp only at hc
   rw [← hevs] at hc
   refine ⟨hc.1, hc.2.1, ?_, ?_⟩
@@ -733,6 +789,27 @@ theorem C18_gather_restart_gather (r : Bool) (s : Cycle.State) (hc : s.closed = 
       = [Out.accepted s.cycles.length s.gen, Out.restarted (s.gen + 1), Out.accepted (s.cycles.length + 1) (s.gen + 1),
          Out.stateSet (s.cycles.length + 1) GS.gathering] := by
   simp [Cycle.run, Cycle.step, hc, hn, cancelAll, List.getElem?_append, Cycle.modify]
+
+open IceModel.Gather.Cycle in
+/-- **Restart during continual gathering.** From ANY state in which cycle `c` is monitoring (its first pass is over,
+it is not cancelled, the agent is open): a tick begins a re-gather pass of that cycle in the current generation;
+after `Restart` the monitor's `select` only sees its cancelled context — it ends without a pass, a candidate the
+cancelled pass still tries to add is refused — and the `GatherCandidates` that follows is accepted in the next
+generation and starts a fresh cycle (with the re-check of `addCandidate`, and without it for an add that makes its
+context check after the Restart). -/
+theorem C18_restart_cancels_monitor (r : Bool) (s : Cycle.State) (c : Nat) (cy : Cyc) (hc : s.closed = false)
+    (hk : s.continual = true) (hcy : s.cycles[c]? = some cy) (hm : cy.monitoring = true) (hap : cy.applied = true)
+    (hf : cy.finished = false) (hl : cy.cancelled = false) :
+    (Cycle.step r s (.tick c)).2 = [Out.regather c cy.gen]
+    ∧ (Cycle.run r s [.restart, .tick c, .addCheck c, .gather, .start s.cycles.length]).2
+      = [Out.restarted (s.gen + 1), Out.accepted s.cycles.length (s.gen + 1), Out.stateSet s.cycles.length GS.gathering] := by
+  have hlt : c < s.cycles.length := (List.getElem?_eq_some_iff.1 hcy).1
+  have hne : ¬ (s.cycles.length = c) := by omega
+  have hget : s.cycles[c] = cy := (List.getElem?_eq_some_iff.1 hcy).2
+  constructor
+  · simp [Cycle.step, hcy, hm, hap, hf, hl, hc, hk]
+  · simp [Cycle.run, Cycle.step, hc, hk, hcy, hm, hap, hf, cancelAll, List.getElem?_append, Cycle.modify, hlt,
+      List.getElem?_modify, hne, hget]
 
 /-- the model's agent runs check and hand-off back to back (as every quiescent point of the harness
 does): from a state in which the cycle is outside the window the two variants cannot be told apart -/
@@ -859,5 +936,62 @@ example : (match newAgent { hrCfg with portMin := 5000, portMax := 5000 } hrIfs 
 example : (match newAgent { hrCfg with mdnsGather := true } hrIfs with | .error e => some e | .ok _ => none) = some .mdnsRewrite
     ∧ (match newAgent { hrCfg with candTypes := [.srflx] } hrIfs with | .error e => some e | .ok _ => none) = some .ineffectiveHost := by
   decide
+
+/-! ### continual gathering: an address appears and disappears (non-vacuity of the extended theorems) -/
+
+def cgCfg : Config := { candTypes := [.host], continual := true, monIntervalMs := 733 }
+def cgIfs (as : List Addr) : List Iface := [{ name := 0, up := true, loopback := false, addrs := as }]
+
+/-- the model on: gather; `g4.2` appears; the clock stops 1 ms before the tick, then reaches it; `g4.1` disappears;
+a tick; `g4.1` comes back; a tick; Restart; two more ticks' worth of time -/
+def cgRun : List Op := [.gather, .ifaces (cgIfs [⟨.g4, 1⟩, ⟨.g4, 2⟩]), .adv 732, .adv 1, .ifaces (cgIfs [⟨.g4, 2⟩]), .adv 733,
+  .ifaces (cgIfs [⟨.g4, 1⟩, ⟨.g4, 2⟩]), .adv 733, .restart, .adv 1466]
+
+/-- what the model publishes after each prefix: (published addresses, opens, closes, gathering state, nil count) -/
+def cgTrace (n : Nat) : List Addr × Nat × Nat × Cycle.GS × Nat :=
+  match newAgent cgCfg (cgIfs [⟨.g4, 1⟩]) with
+  | .ok s =>
+    let s' := IceProofs.GatherAgent.runOps s (cgRun.take n)
+    (s'.cands.map (·.d.addr), s'.opens, s'.closes, s'.cyc.gs, s'.nilsGen)
+  | .error _ => ([], 9, 9, .new, 9)
+
+/-- the first pass does not complete: state Gathering, no nil candidate -/
+example : cgTrace 1 = ([⟨.g4, 1⟩], 1, 0, .gathering, 0) := by decide
+/-- 1 ms before the first tick the new address has no candidate yet … -/
+example : cgTrace 3 = ([⟨.g4, 1⟩], 1, 0, .gathering, 0) := by decide
+/-- … the tick finds it and re-gathers EVERYTHING: a second socket and candidate for `g4.1`, the first for `g4.2` -/
+example : cgTrace 4 = ([⟨.g4, 1⟩, ⟨.g4, 1⟩, ⟨.g4, 2⟩], 3, 0, .gathering, 0) := by decide
+/-- an address that disappears: no pass, its candidates and sockets stay -/
+example : cgTrace 6 = ([⟨.g4, 1⟩, ⟨.g4, 1⟩, ⟨.g4, 2⟩], 3, 0, .gathering, 0) := by decide
+/-- … it comes back: it is new again, one more pass -/
+example : cgTrace 8 = ([⟨.g4, 1⟩, ⟨.g4, 1⟩, ⟨.g4, 2⟩, ⟨.g4, 1⟩, ⟨.g4, 2⟩], 5, 0, .gathering, 0) := by decide
+/-- Restart releases everything and cancels the monitor: no pass afterwards -/
+example : cgTrace 10 = ([], 5, 5, .new, 0) := by decide
+/-- the hypothesis of `C18_sound_reachable` holds for this run: every table it has is one of real addresses -/
+example : ∀ T ∈ cgIfs [⟨.g4, 1⟩] :: IceProofs.GatherProv.opTables cgRun, realAddrs cgCfg T = true := by decide
+/-- the code WITH finding C18-G10 (`quirks := [10]`): `g4.2` known to the first cycle, gone at the Restart, back
+afterwards — never gathered again in the new generation -/
+example : (match newAgent { cgCfg with quirks := [10] } (cgIfs [⟨.g4, 1⟩, ⟨.g4, 2⟩]) with
+    | .ok s => ((IceProofs.GatherAgent.runOps s [.gather, .ifaces (cgIfs [⟨.g4, 1⟩]), .restart, .gather,
+        .ifaces (cgIfs [⟨.g4, 1⟩, ⟨.g4, 2⟩]), .adv 733, .adv 733]).cands.map (·.d.addr))
+    | .error _ => []) = [⟨.g4, 1⟩] := by decide
+/-- … the repaired code gathers it at the first tick -/
+example : (match newAgent cgCfg (cgIfs [⟨.g4, 1⟩, ⟨.g4, 2⟩]) with
+    | .ok s => ((IceProofs.GatherAgent.runOps s [.gather, .ifaces (cgIfs [⟨.g4, 1⟩]), .restart, .gather,
+        .ifaces (cgIfs [⟨.g4, 1⟩, ⟨.g4, 2⟩]), .adv 733]).cands.map (·.d.addr))
+    | .error _ => []) = [⟨.g4, 1⟩, ⟨.g4, 1⟩, ⟨.g4, 2⟩] := by decide
+/-- the monitor judges a host candidate delivered now against the table in force now: `g4.1` after it disappeared -/
+example : soundViolation cgCfg [cgIfs [⟨.g4, 2⟩], cgIfs [⟨.g4, 1⟩]] (cgIfs [⟨.g4, 2⟩])
+    { evs := [({ ty := .host, net := .udp4, addr := ⟨.g4, 1⟩ }, some 0)] }
+    = some "host candidate on an interface/address the filters or the loopback setting reject" := by decide
+/-- … but accepts it in the LIST: it was gathered under the earlier table -/
+example : soundViolation cgCfg [cgIfs [⟨.g4, 2⟩], cgIfs [⟨.g4, 1⟩]] (cgIfs [⟨.g4, 2⟩])
+    { cands := [({ ty := .host, net := .udp4, addr := ⟨.g4, 1⟩ }, some 0)] } = none := by decide
+/-- the cycle machine with the continual policy: the first pass ends in `monitorStarted`, a tick begins a pass, Restart
+ends the monitor, never a nil candidate -/
+example : (Cycle.run false { continual := true } [.gather, .start 0, .complete 0, .tick 0, .addCheck 0, .addHandoff 0,
+      .restart, .tick 0, .gather, .start 1]).2
+    = [.accepted 0 0, .stateSet 0 .gathering, .monitorStarted 0, .regather 0 0, .published 0 0 0, .restarted 1,
+       .accepted 1 1, .stateSet 1 .gathering] := by decide
 
 end IceProps.C18
